@@ -70,6 +70,10 @@ pub struct GraphEngine {
     published_labels: RwLock<Arc<LabelSnapshot>>,
     published_node_labels: RwLock<Arc<Vec<Vec<LabelId>>>>,
     write_lock: Mutex<()>,
+    /// Held for writing while a commit or a compaction publishes its result (node table,
+    /// node labels, runs, segments, roots) and for reading while a snapshot collects these
+    /// pieces, so that a snapshot never sees a half-published transaction.
+    publish_lock: RwLock<()>,
     next_txid: AtomicU64,
     next_segment_id: AtomicU64,
     manifest_epoch: AtomicU64,
@@ -147,6 +151,7 @@ impl GraphEngine {
             published_labels: RwLock::new(Arc::new(label_snapshot)),
             published_node_labels: RwLock::new(Arc::new(node_labels_snapshot)),
             write_lock: Mutex::new(()),
+            publish_lock: RwLock::new(()),
             next_txid: AtomicU64::new(state.max_txid.saturating_add(1).max(1)),
             next_segment_id: AtomicU64::new(max_seg_id.saturating_add(1).max(1)),
             manifest_epoch: AtomicU64::new(state.manifest_epoch),
@@ -193,6 +198,17 @@ impl GraphEngine {
     }
 
     pub fn begin_read(&self) -> Snapshot {
+        let _publication = self.publication_guard();
+        self.begin_read_published()
+    }
+
+    /// Blocks commit/compaction publication while the caller collects snapshot pieces.
+    pub(crate) fn publication_guard(&self) -> impl Sized + '_ {
+        self.publish_lock.read().unwrap()
+    }
+
+    /// `begin_read` for callers that already hold [`Self::publication_guard`].
+    pub(crate) fn begin_read_published(&self) -> Snapshot {
         let runs = self.published_runs.read().unwrap().clone();
         let segments = self.published_segments.read().unwrap().clone();
         let labels = self.published_labels.read().unwrap().clone();
@@ -479,6 +495,7 @@ impl GraphEngine {
         }
 
         // 4. Update memory state
+        let _publication = self.publish_lock.write().unwrap();
         self.checkpoint_txid.store(up_to_txid, Ordering::SeqCst);
         self.properties_root.store(current_root, Ordering::SeqCst);
         self.stats_root.store(stats_root, Ordering::SeqCst);
@@ -1148,6 +1165,7 @@ impl<'a> WriteTxn<'a> {
         let has_label_ops = !self.pending_label_ops.is_empty();
 
         // 3. Apply created nodes to IdMap / Node Index
+        let _publication = self.engine.publish_lock.write().unwrap();
         {
             let mut idmap = self.engine.idmap.lock().unwrap();
             let mut pager = self.engine.pager.write().unwrap();
